@@ -258,6 +258,57 @@ def branch_lines(args):
     return False, "all three backends book the two columns"
 
 
+@driver
+def reset_state(args):
+    "executor.reset() must leave no namespace/enum registry entry and no found extended metadata behind"
+    import func_adl_xAOD.common.cpp_types as ctyp
+    exe = _executor("atlas")
+    ctyp.define_enum("xAOD.Jet", "Color", ["Red", "Blue"])
+    exe._job_option_blocks.append(object())
+    exe.reset()
+    left = []
+    if len(ctyp.g_toplevel_ns) != 0:
+        left.append("g_toplevel_ns still holds %r" % list(ctyp.g_toplevel_ns))
+    if exe._job_option_blocks or exe._inject_blocks or exe._extended_md:
+        left.append("block lists / extended metadata not cleared")
+    return bool(left), "; ".join(left) if left else "reset() restores the fresh state"
+
+
+@driver
+def failed_query_leaks(args):
+    "a query that declares a method type and then fails must not change how the next query is translated"
+    import func_adl_xAOD.common.cpp_types as ctyp
+    base = {k: dict(v) for k, v in ctyp.g_method_type_dict.items()}
+    exe = _executor("atlas")
+    fresh = {k: sorted(v) for k, v in ctyp.g_method_type_dict.items()}
+    bad = (_dataset().MetaData({"metadata_type": "add_method_type_info", "type_string": "xAOD::Jet", "method_name": "pt", "return_type": "int"})
+           .SelectMany("lambda e: e.Jets('AntiKt4EMTopoJets')").Select("lambda j: j.pt().no_such_thing()"))
+    try:
+        translate(bad, exe=exe)
+        return False, "the probe query unexpectedly translated"
+    except Exception:
+        pass
+    now = {k: sorted(v) for k, v in ctyp.g_method_type_dict.items()}
+    if now != fresh:
+        return True, "after a FAILED query the method-type registry still holds its declarations: %r (fresh state: %r)" % (now, fresh)
+    good = _dataset().SelectMany("lambda e: e.Jets('AntiKt4EMTopoJets')").Select("lambda j: j.pt()")
+    info, files = translate(good, exe=_executor("atlas"))
+    if "int _col" in files["query.h"]:
+        return True, "the next, unrelated query books an int column because of the failed query's declaration"
+    return False, "a failed query leaves no trace"
+
+
+@driver
+def extended_md_shared(args):
+    "extended metadata registered on one executor must not be visible on a newly created executor"
+    e1 = _executor("atlas")
+    e1.add_extended_md({"docker": object()})
+    e2 = _executor("atlas")
+    if len(e2._extended_md) != 0:
+        return True, "a new executor starts with the extended metadata %r registered on another executor" % list(e2._extended_md)
+    return False, "executors do not share extended metadata"
+
+
 def main():
     name = sys.argv[1]
     args = json.loads(sys.argv[2]) if len(sys.argv) > 2 else {}
